@@ -216,6 +216,24 @@ MUT["C05"] = [
 ]
 
 
+MUT["C11"] = [
+    dict(id="c11-gamma-full-width", what="gamma = pub - plb (plausible bounds map to -1/2, 1/2)", path=P_VT, functions=[VT + ".__create_hypercube_trans__"],
+         old="        gamma = 0.5 * (self.pub - self.plb)", new="        gamma = self.pub - self.plb", expect="unit_"),
+    dict(id="c11-decade-strict", what="decade rule with > instead of >=", path=P_VT, functions=[VT + ".__create_hypercube_trans__"],
+         old="                and (self.pub[:, i] / self.plb[:, i] >= 10).item()", new="                and (self.pub[:, i] / self.plb[:, i] > 10).item()", expect="processed_follow_rule"),
+    dict(id="c11-no-abs", what="log of the signed value", path=P_VT, functions=[VT + ".__create_hypercube_trans__"],
+         old="            (np.log(np.abs(x) + (x == 0)) - mu) / gamma, self.apply_log_t", new="            (np.log(x + (x == 0)) - mu) / gamma + 0 * np.abs(x), self.apply_log_t", expect="__create_hypercube_trans__"),
+    dict(id="c11-ginv-sign", what="inverse affine map with the wrong sign", path=P_VT, functions=[VT + ".__create_hypercube_trans__"],
+         old="            ginv = lambda y: gamma * y + mu\n", new="            ginv = lambda y: mu - gamma * y\n", expect="inverse_increasing_affine"),
+    dict(id="c11-fwd-clamp-orig", what="forward clamp against the original bounds", path=P_VT, functions=[VT + ".__call__"],
+         old="            np.maximum(y, self.lb), self.ub", new="            np.maximum(y, self.orig_lb), self.orig_ub", expect="clamped"),
+    dict(id="c11-mask-by-multiplication", what="maskindex by multiplication (inf * 0 = NaN)", path=P_VT, functions=[VT + ".__create_hypercube_trans__"],
+         old="    result = vector.copy()\n    result[:, ~bool_index.flatten()] = 0\n    return result", new="    return vector * bool_index", expect="transformed_hard_bounds_are_numbers"),
+    dict(id="c11-order-permissive", what="order check accepts plb == pub", path=P_VT, functions=[VT + ".__create_hypercube_trans__"],
+         old="            and np.all(self.plb < self.pub)\\", new="            and np.all(self.plb <= self.pub)\\", expect="order"),
+]
+
+
 def scan_c19(index, registry):
     return scans.deepcopy_on_store(index, registry)
 
@@ -318,6 +336,17 @@ PROPS = {
         explanation="Ghost sequences RetVal(k), RetSD(k), ArgPt(k) of the k-th target call (defined at the single call site). Noise test: level becomes >= 1 iff |RetVal(n+1)-RetVal(n+2)| > tol_noise, "
                     "both calls at the same point. Tail: the last noise_final_samples calls are at inverse_transf(u) = returned x, yval_vec[k] = RetVal of those calls (plus the recorded observation of the "
                     "selected iterate when only one sample), fval = mean(yval_vec), fsd = std/sqrt(size) (uninterpreted mean/std), ysd_vec = RetSD, returned x is a recorded (earlier evaluated) iterate; budget reserve.",
+    ),
+    "C11": dict(
+        level="proof",
+        native=[dict(name="transform-sampling", script="transform_sampling.py", args_quick=["--points", 2000], args_thorough=["--points", 200000], timeout=2400)],
+        replay=dict(script="transform_sampling.py", args=["--points", 20000], timeout=1200),
+        functions=[VT + ".__create_hypercube_trans__", VT + ".__call__", VT + ".inverse_transf"],
+        mutants=MUT["C11"],
+        explanation="The real closures z, zlog, g, ginv created inside __create_hypercube_trans__ are called symbolically in the postconditions (arbitrary points ghost.x1, ghost.x2, all D): "
+                    "plausible bounds map to -1/+1, g increasing (affine and log coordinates), ginv increasing (non-decreasing at the float cap), ginv(g(x)) == x for affine coordinates, "
+                    "transformed hard bounds are never NaN, bounds ordered on normal return; the log flag is set exactly when all four bounds are positive and pub/plb >= 10 "
+                    "(loop invariant over the NaN-flag indices); clamps of both directions. BOUNDED: rounding error < 1e-9 of the width and the log round trip (sampling).",
     ),
     "C04": dict(
         level="proof",
